@@ -234,6 +234,26 @@ def shape_creator_fails_while_child_runs():
     }
 
 
+def shape_self_product_input():
+    """S defines T (-> o.txt) and amends o.txt as its own input; then S is dropped (candidate P4)."""
+    return {
+        "name": "self_product_input",
+        "sources": {"plan.py": ["v1", "v2"], "s1.txt": ["a"]},
+        "scripts": {
+            "./plan.py": {
+                "on": "plan.py",
+                "versions": {
+                    "v1": [["static", ["s1.txt"]], ["step", "S", {"need": "PLAN"}], ["step", "K", {"inp": ["s1.txt"], "out": ["k.txt"]}]],
+                    "v2": [["static", ["s1.txt"]], ["step", "K", {"inp": ["s1.txt"], "out": ["k.txt"]}]],
+                },
+            },
+            "S": [["step", "T", {"out": ["o.txt"]}], ["amend", {"inp": ["o.txt"]}], ["read", "o.txt"]],
+            "T": GENERIC_WORKER,
+            "K": GENERIC_WORKER,
+        },
+    }
+
+
 def shape_hold():
     return {
         "name": "hold",
@@ -377,6 +397,7 @@ SHAPES = {
         shape_amend_unchanged_output,
         shape_detach_running_same_output,
         shape_creator_fails_while_child_runs,
+        shape_self_product_input,
         shape_hold,
         shape_amend,
         shape_optional,
@@ -596,8 +617,14 @@ class Gen:
             ops.append(["read", cfg["late"][where]])
         return ops
 
-    def history(self, project, nphases=4, watch_p=0.3, cfgs=None) -> list[dict]:
+    def history(self, project, nphases=4, watch_p=0.3, cfgs=None, user_edits=False, targets=False) -> list[dict]:
         rng = self.rng
+        outs = sorted({o for v in project["scripts"]["./plan.py"]["versions"].values() for op in v
+                       if op[0] == "step" for o in op[2].get("out", [])})
+        for sub in project.get("linked", []):
+            for v in project["scripts"]["./" + sub]["versions"].values():
+                outs.extend(o for op in v if op[0] == "step" for o in op[2].get("out", []))
+        outs = sorted(set(outs))
         cur = {p: vs[0] for p, vs in project["sources"].items()}
         phases = [initial_phase(project, cfg=self.cfg(cfgs), seed=rng.randrange(10**6))]
         for _ in range(nphases - 1):
@@ -625,8 +652,26 @@ class Gen:
                         cur[p] = None
                 elif kind == "env":
                     edits.append(["env", rng.choice(["VV_A", "VV_B"]), rng.choice([None, "1", "2"])])
+            if user_edits and outs and rng.random() < 0.5:
+                # what users do to outputs between builds
+                o = rng.choice(outs)
+                ukind = rng.choice(["overwrite", "delete", "todir", "adopt"])
+                if ukind == "overwrite":
+                    edits.append(["raw", o, "edited by the user\n"])
+                elif ukind == "delete":
+                    edits.append(["del", o])
+                elif ukind == "todir":
+                    edits.append(["todir", o])
+                else:
+                    edits.append(["raw", o, "now a user file\n"])
             how = "watch" if rng.random() < watch_p else "restart"
-            phases.append({"edits": edits, "how": how, "cfg": self.cfg(cfgs), "seed": rng.randrange(10**6)})
+            cfg = self.cfg(cfgs)
+            if targets and outs and rng.random() < 0.6:
+                if rng.random() < 0.7:
+                    cfg["targets"] = sorted(rng.sample(outs, rng.choice([1, 1, 2])))
+                else:
+                    cfg["target_dirs"] = [rng.choice(["out/", "gout/"])]
+            phases.append({"edits": edits, "how": how, "cfg": cfg, "seed": rng.randrange(10**6)})
         return phases
 
     def cfg(self, cfgs=None):
